@@ -539,6 +539,13 @@ def bind(c, tmp):
             args[p.name] = v
         elif p.name in KW:
             args[p.name] = KW[p.name]
+        elif p.name == 'weights' and nm == 'mean' and selfobj is not None and c['seed'] % 2 == 1:
+            # per-entry float weights together with RDMs that lack entries (seeded change C12-m7: NaNs written into the weights)
+            selfobj.dissimilarities[0, 1] = np.nan
+            selfobj.dissimilarities[1, 3] = np.nan
+            args[p.name] = np.ones(selfobj.dissimilarities.shape) * (1 + np.arange(selfobj.n_rdm))[:, None]
+        elif p.name == 'method' and c['seed'] % 2 == 1 and '.model.fitter.' in c['qual'] and c['owner'] is None:
+            args[p.name] = 'corr'          # the centring criterion (seeded change C12-m8: in-place centring of the model's RDMs)
         elif p.name == 'pattern_descriptor' and c['seed'] % 2 == 0 and c['owner'] is None and any(
                 q.name in ('rdms', 'data') for q in params):
             args[p.name] = 'num'          # an array-valued grouping descriptor instead of the default 'index' list
